@@ -132,7 +132,10 @@ class PythonModuleInstance(ModuleInstance):
     def invoke(self, name, *args):
         """Invoke the function 'name'"""
         f = self._py_module.rt.externals[name]
-        f(*args)
+        try:
+            f(*args)
+        except ZeroDivisionError as ex:
+            raise WasmTrapException("integer divide by zero") from ex
 
     def memory_create(self, min_size, max_size):
         """Create memory."""
@@ -195,6 +198,18 @@ class PythonModuleInstance(ModuleInstance):
     def store_i64(self, address, value: int):
         self._py_module.rt.store_i64(address, value)
 
+    def load_f32(self, address: int) -> float:
+        return self._py_module.rt.load_f32(address)
+
+    def store_f32(self, address, value: float):
+        self._py_module.rt.store_f32(address, value)
+
+    def load_f64(self, address: int) -> float:
+        return self._py_module.rt.load_f64(address)
+
+    def store_f64(self, address, value: float):
+        self._py_module.rt.store_f64(address, value)
+
     def load_ptr(self, address: int) -> int:
         return self._py_module.rt.load_u32(address)
 
@@ -221,6 +236,8 @@ class PythonMemoryInstance(MemoryInstance):
         max_size = self.max_size
         assert max_size is not None
         old_size = self.size()
+        # The amount is an unsigned i32 which arrives as a signed value:
+        amount &= 0xFFFFFFFF
         new_size = old_size + amount
         if new_size > max_size:
             return -1
@@ -262,6 +279,8 @@ class PythonGlobalInstance(GlobalInstance):
         mp = {
             ir.i32: self.instance.load_i32,
             ir.i64: self.instance.load_i64,
+            ir.f32: self.instance.load_f32,
+            ir.f64: self.instance.load_f64,
         }
         f = mp[self.ty]
         return f(address)
@@ -271,6 +290,8 @@ class PythonGlobalInstance(GlobalInstance):
         mp = {
             ir.i32: self.instance.store_i32,
             ir.i64: self.instance.store_i64,
+            ir.f32: self.instance.store_f32,
+            ir.f64: self.instance.store_f64,
         }
         f = mp[self.ty]
         f(address, value)
